@@ -24,4 +24,4 @@ Definition poisson_joint_source : list (string * string) :=
   [("poisson_joint_entropy.signature",
     "Cov");
    ("poisson_joint_entropy.return[always]",
-    "np.sum(poisson_entropy(np.matrix(np.diag(Cov))))+np.sum(np.matrix(np.triu(Cov,1)))")].
+    "np.sum(poisson_entropy(lambdas=np.matrix(np.diag(Cov))))+np.sum(np.matrix(np.triu(Cov,1)))")].
